@@ -1,290 +1,772 @@
-(* C06 — hostile input.  Model of what the receive path does with the NUMERIC fields of writer
-   submessages addressed to a reliable Reader (per matched remote writer: RtpsWriterProxy), with
-   Rust's i64 arithmetic made explicit: every addition the code performs on a received number goes
-   through [chk], which is None (= panic with overflow checks, wrap-around without) outside i64.
-   Loops carry a cost counter (number of iterations).
+(* C06 — no datagram can crash, hang or bloat a participant.
 
-   Code modelled (as written, after the fix: commits listed in known_findings.json):
-     MessageReceiver::handle_writer_submessage    (numbers_in_accepted_range guard)
-     NumberSet::read_from (num_bits <= 256), NumberSetIter::next (base + bit index)
-     Reader::handle_heartbeat_msg  (count check, irrelevant_changes_up_to, missing_seqnums bounded
-                                    by all_ackable_before + 255, ACKNACK base)
-     Reader::handle_gap_msg        (validity checks, irrelevant_changes_range, set_irrelevant_change)
-     Reader::handle_data_msg/process_received_data (should_ignore_change, received_changes_add)
-     RtpsWriterProxy::{irrelevant_changes_range, advance_ack_base, missing_seqnums, ...}
-   Not modelled here: DATAFRAG reassembly (C05 model), payload decoding, reader-submessage handling
-   in the Writer, byte-level framing (C14 model).  Such submessages are carried in a case as opaque
-   items; they make the W1-state prediction inexact (see [exact]). *)
+   Executable model of what the receive thread does with ONE RTPS datagram after the byte-level
+   parse (speedy), at the level "parsed submessage with arbitrary in-type field values":
+
+     Message::read_from_buffer / Submessage::read_from_buffer   (a datagram one of whose
+        submessages is rejected by its reader is dropped as a whole: [sub_parses])
+     NumberSet reader (num_bits <= 256, (num_bits+31)/32 words), NumberSetIter::next (bitmap
+        indexing, base + bit index in the number type: i64 for sequence numbers, u32 for
+        fragment numbers)
+     DataFrag::deserialize validity checks, MessageReceiver::decode_and_handle_datafrag length check
+     MessageReceiver::handle_interpreter_submessage (INFO_DST, INFO_SRC, INFO_TS),
+        handle_writer_submessage / handle_reader_submessage guards (destination prefix,
+        numbers_in_accepted_range = fix 4e0d9c9)
+     Reader::handle_heartbeat_msg (count check, irrelevant_changes_up_to, window = fix eef2682,
+        missing_seqnums, ACKNACK set construction, NACKFRAG generation),
+     Reader::handle_gap_msg, Reader::handle_data_msg / process_received_data,
+     Reader::handle_datafrag_msg + FragmentAssembler (C05's model, reused), handle_heartbeatfrag_msg
+     RtpsWriterProxy::{missing_seqnums, should_ignore_change, received_changes_add,
+        set_irrelevant_change, irrelevant_changes_range, irrelevant_changes_up_to, advance_ack_base}
+     Writer::handle_ack_nack, RtpsReaderProxy::handle_ack_nack, RtpsReaderProxy::mark_frags_requested
+
+   Debug-build semantics: checked + and - on i64 / u32 / usize, slice and BitVec indexing are
+   explicit [OPanic] outcomes.  Every value-driven loop adds its trip count to [cost], every
+   value-driven allocation its size in bytes (64 per BTreeMap/BTreeSet entry, 8 per Vec element,
+   the buffer size for an assembly buffer) to [alloc].  BTreeMap operations (insert, split_off,
+   append, range) count as one step each.
+
+   [version] selects, per repaired defect, the code before or after the fix: commit. *)
 From Coq Require Import List ZArith Bool Lia.
 From RD Require Import Common.Corr.
+From RD Require C05.Model.
 Import ListNotations.
 Open Scope Z_scope.
 
+Module F := RD.C05.Model.
+
+(* ---------------------------------------------------------------------------------------- *)
+(* outcomes with meters *)
+Inductive out (A : Type) :=
+| OPanic                       (* the receive thread unwinds: the participant is dead *)
+| OFuel                        (* model artefact: loop fuel exhausted (shown impossible) *)
+| ORet (a : A) (cost alloc : Z).
+Arguments OPanic {A}.
+Arguments OFuel {A}.
+Arguments ORet {A} a cost alloc.
+
+Definition ret {A} (a : A) : out A := ORet a 0 0.
+Definition bind {A B} (m : out A) (f : A -> out B) : out B :=
+  match m with
+  | OPanic => OPanic
+  | OFuel => OFuel
+  | ORet a c1 a1 =>
+      match f a with
+      | OPanic => OPanic
+      | OFuel => OFuel
+      | ORet b c2 a2 => ORet b (c1 + c2) (a1 + a2)
+      end
+  end.
+Notation "x <- e ;; k" := (bind e (fun x => k))
+  (at level 61, e at next level, right associativity).
+Definition tick (n : Z) : out unit := ORet tt n 0.
+Definition alloc (n : Z) : out unit := ORet tt 0 n.
+Definition lift {A} (r : F.res A) : out A :=
+  match r with F.Panic => OPanic | F.Ok a => ret a end.
+
+Definition ENTRY : Z := 64.     (* one BTreeMap / BTreeSet entry *)
+Definition WORD : Z := 8.       (* one Vec<SequenceNumber> element *)
+Definition MSG : Z := 2048.     (* building and encoding one reply message *)
+
+(* ---------------------------------------------------------------------------------------- *)
+(* machine integers *)
 Definition i64_max : Z := 9223372036854775807.
 Definition i64_min : Z := -9223372036854775808.
-Definition max_accepted : Z := i64_max - 65536.      (* SequenceNumber::MAX_ACCEPTED *)
+Definition u32_max : Z := 4294967295.
+Definition max_accepted : Z := i64_max - 65536.       (* SequenceNumber::MAX_ACCEPTED *)
+Definition fmax_accepted : Z := u32_max - 65536.      (* FragmentNumber::MAX_ACCEPTED *)
 
-Definition chk (x : Z) : option Z := if (i64_min <=? x) && (x <=? i64_max) then Some x else None.
+Definition in_i64 (x : Z) : bool := (i64_min <=? x) && (x <=? i64_max).
+Definition iadd (a b : Z) : out Z := if in_i64 (a + b) then ret (a + b) else OPanic.
+Definition isub (a b : Z) : out Z := if in_i64 (a - b) then ret (a - b) else OPanic.
+Definition u32add (a b : Z) : out Z := if a + b <=? u32_max then ret (a + b) else OPanic.
 
-Inductive sub :=
+(* ---------------------------------------------------------------------------------------- *)
+Record version := {
+  v_range_guard : bool;      (* 4e0d9c9  numbers_in_accepted_range *)
+  v_hb_window : bool;        (* eef2682  HEARTBEAT: enumerate at most the ACKNACK window *)
+  v_gap_window : bool;       (* GAP range: mark at most the ACKNACK window *)
+  v_nackfrag_window : bool;  (* NACKFRAG generation: collect at most 256 missing fragments *)
+  v_frag_validate : bool }.  (* 67917b6  FragmentAssembler::validate_datafrag *)
+Definition fixed : version :=
+  {| v_range_guard := true; v_hb_window := true; v_gap_window := true;
+     v_nackfrag_window := true; v_frag_validate := true |}.
+Definition pinned : version :=
+  {| v_range_guard := false; v_hb_window := false; v_gap_window := false;
+     v_nackfrag_window := false; v_frag_validate := false |}.
+
+(* ---------------------------------------------------------------------------------------- *)
+(* submessages as parsed, field values arbitrary within their Rust types *)
+Inductive subm :=
 | Heartbeat (first last count : Z) (final : bool)
-| Gap (start base : Z) (numbits : Z) (words : list Z)
-| Data (sn : Z) (payload_len : Z)
-(* opaque for this model *)
+| Gap (start base numbits : Z) (words : list Z)
+| Data (sn payload_len : Z)
 | DataFrag (sn start in_sub fsize total payload_len : Z)
 | AckNack (base numbits : Z) (words : list Z) (count : Z)
 | NackFrag (sn base numbits : Z) (words : list Z) (count : Z)
 | HeartbeatFrag (sn last_frag count : Z)
 | InfoTs (sec frac : Z)
-| Raw (id flags body_len : Z) (len_field : option Z).
+| InfoDst (who : Z)                 (* guid prefix = 12 x who; 0 = GUIDPREFIX_UNKNOWN *)
+| InfoSrc (who : Z)
+| Raw (id flags body_len : Z) (len_field : option Z) (parsed : bool)
+| Blob (len : Z) (parsed : bool).
+  (* Raw: submessage bytes the model does not interpret; always the last submessage of its
+     datagram.  Blob: a whole datagram of [len] bytes that the model does not interpret (byte
+     mutations, truncations); always alone.  [parsed] = verdict of the real
+     Message::read_from_buffer on the whole datagram. *)
 
-(* ---------- writer proxy ---------- *)
+Record dgram := { d_src : Z; d_subs : list subm }.
+
+Definition OWN : Z := 9.            (* our participant's guid prefix is 12 x 9 *)
+
+Definition pad4 (n : Z) : Z := n + (4 - n mod 4) mod 4.
+Definition zlen {A} (l : list A) : Z := Z.of_nat (length l).
+
+(* size on the wire (submessage header included) *)
+Definition sub_bytes (s : subm) : Z :=
+  match s with
+  | Heartbeat _ _ _ _ => 32
+  | Gap _ _ _ w => 32 + 4 * zlen w
+  | Data _ pl => 24 + pad4 pl
+  | DataFrag _ _ _ _ _ pl => 36 + pad4 pl
+  | AckNack _ _ w _ => 28 + 4 * zlen w
+  | NackFrag _ _ _ w _ => 32 + 4 * zlen w
+  | HeartbeatFrag _ _ _ => 28
+  | InfoTs _ _ => 12
+  | InfoDst _ => 16
+  | InfoSrc _ => 24
+  | Raw _ _ bl lf _ => 4 + match lf with None => pad4 bl | Some _ => bl end
+  | Blob n _ => n - 20
+  end.
+Definition dg_bytes (d : dgram) : Z := 20 + fold_right (fun s a => sub_bytes s + a) 0 (d_subs d).
+
+(* ---------------------------------------------------------------------------------------- *)
+(* RtpsWriterProxy *)
 Record proxy := { ack_base : Z; changes : list Z; hb_count : Z }.
-Definition proxy0 := {| ack_base := 1; changes := []; hb_count := 0 |}.
+Definition proxy0 : proxy := {| ack_base := 1; changes := []; hb_count := 0 |}.
+Definition with_base (p : proxy) (b : Z) : proxy :=
+  {| ack_base := b; changes := changes p; hb_count := hb_count p |}.
+Definition with_changes (p : proxy) (ch : list Z) : proxy :=
+  {| ack_base := ack_base p; changes := ch; hb_count := hb_count p |}.
 
 Definition mem (x : Z) (l : list Z) : bool := existsb (Z.eqb x) l.
 Definition insert (x : Z) (l : list Z) : list Z := if mem x l then l else x :: l.
+Definition rm (x : Z) (l : list Z) : list Z := filter (fun y => negb (y =? x)) l.
 
-(* advance_ack_base: while ack_base is in changes, move past it (test_sn + 1 is checked) *)
-Fixpoint advance (fuel : nat) (b : Z) (ch : list Z) (cost : Z) : option (Z * Z) :=
+(* advance_ack_base: walk changes.range(ack_base..) while the keys are consecutive.
+   [rest] = the keys not yet visited (each visit removes one), fuel = their number + 1. *)
+Fixpoint advance (fuel : nat) (b : Z) (rest : list Z) : out Z :=
   match fuel with
-  | O => Some (b, cost)
-  | S f => if mem b ch
-           then match chk (b + 1) with
-                | Some b' => advance f b' ch (cost + 1)
-                | None => None
-                end
-           else Some (b, cost)
+  | O => OFuel
+  | S f =>
+      _ <- tick 1 ;;
+      if mem b rest then (b' <- iadd b 1 ;; advance f b' (rm b rest)) else ret b
   end.
+Definition advance_proxy (p : proxy) : out proxy :=
+  b <- advance (S (length (changes p))) (ack_base p) (changes p) ;; ret (with_base p b).
 
-Definition advance_proxy (p : proxy) (cost : Z) : option (proxy * Z) :=
-  match advance (S (length (changes p))) (ack_base p) (changes p) cost with
-  | Some (b, c) => Some ({| ack_base := b; changes := changes p; hb_count := hb_count p |}, c)
-  | None => None
-  end.
+Definition should_ignore (p : proxy) (sn : Z) : bool := (sn <? ack_base p) || mem sn (changes p).
 
-(* set_irrelevant_change *)
-Definition set_irrelevant (p : proxy) (sn : Z) (cost : Z) : option (proxy * Z) :=
-  let p1 := if ack_base p <=? sn
-            then {| ack_base := ack_base p; changes := insert sn (changes p); hb_count := hb_count p |}
-            else p in
-  if sn =? ack_base p1 then advance_proxy p1 cost else Some (p1, cost).
+Definition received_add (p : proxy) (sn : Z) : out proxy :=
+  _ <- alloc ENTRY ;;
+  let p1 := with_changes p (insert sn (changes p)) in
+  if sn =? ack_base p1 then advance_proxy p1 else ret p1.
 
-(* received_changes_add *)
-Definition received_add (p : proxy) (sn : Z) (cost : Z) : option (proxy * Z) :=
-  let p1 := {| ack_base := ack_base p; changes := insert sn (changes p); hb_count := hb_count p |} in
-  if sn =? ack_base p1 then advance_proxy p1 cost else Some (p1, cost).
+Definition set_irrelevant (p : proxy) (sn : Z) : out proxy :=
+  p1 <- (if ack_base p <=? sn
+         then (_ <- alloc ENTRY ;; ret (with_changes p (insert sn (changes p))))
+         else ret p) ;;
+  if sn =? ack_base p1 then advance_proxy p1 else ret p1.
 
-(* irrelevant_changes_range from until_before.  The else-branch inserts every number of the range:
-   its cost is the span (finding "gap-span"); the range iterator's b + 1 is checked. *)
-Fixpoint insert_range (n : nat) (from : Z) (ch : list Z) : list Z :=
+(* for na in range_inclusive(from, ..): the iterator computes b + 1 for every b it yields *)
+Fixpoint insert_range (n : nat) (from : Z) (ch : list Z) : out (list Z) :=
   match n with
-  | O => ch
-  | S k => insert_range k (from + 1) (insert from ch)
+  | O => ret ch
+  | S k =>
+      _ <- tick 1 ;; _ <- alloc ENTRY ;;
+      nxt <- iadd from 1 ;;
+      insert_range k nxt (insert from ch)
   end.
 
-Definition irrelevant_range (p : proxy) (from until_before : Z) (cost : Z) : option (proxy * Z) :=
-  if until_before <? from then Some (p, cost)            (* "negative range" -> return *)
+Definition irrelevant_range (v : version) (p : proxy) (from until_before : Z) : out proxy :=
+  if until_before <? from then ret p                      (* "negative range": return *)
   else if from <=? ack_base p then
+    _ <- tick 1 ;;
     let ch := filter (fun x => negb ((from <=? x) && (x <? until_before))) (changes p) in
     if ack_base p <? until_before
     then advance_proxy {| ack_base := until_before; changes := ch; hb_count := hb_count p |}
-                       (cost + 1)
-    else Some ({| ack_base := ack_base p; changes := ch; hb_count := hb_count p |}, cost + 1)
+    else ret (with_changes p ch)
   else
-    (* range_inclusive(from, until_before - 1): the last b + 1 computed is until_before *)
-    match chk (until_before - 1), chk until_before with
-    | Some _, Some _ =>
-        Some ({| ack_base := ack_base p;
-                 changes := insert_range (Z.to_nat (until_before - from)) from (changes p);
-                 hb_count := hb_count p |}, cost + (until_before - from))
-    | _, _ => None
-    end.
+    u1 <- isub until_before 1 ;;
+    last <- (if v_gap_window v
+             then (lim <- iadd (ack_base p) 255 ;; ret (Z.min u1 lim))
+             else ret u1) ;;
+    ch <- insert_range (Z.to_nat (last - from + 1)) from (changes p) ;;
+    ret (with_changes p ch).
 
-(* NumberSetIter: numbers base + i for the set bits i < numbits (bit i of the set is bit 31 - i mod 32
-   of word i / 32) *)
-Definition bit_set (words : list Z) (i : Z) : bool :=
-  Z.testbit (nth (Z.to_nat (i / 32)) words 0) (31 - i mod 32).
-
-Fixpoint set_elems (n : nat) (i : Z) (base : Z) (words : list Z) : option (list Z) :=
+(* NumberSetIter: element = base + i for every set bit i < num_bits; bit i is bit 31 - i mod 32
+   of bitmap[i / 32] (indexing panics outside the Vec) *)
+Definition bit_set (words : list Z) (i : Z) : out bool :=
+  match nth_error words (Z.to_nat (i / 32)) with
+  | None => OPanic
+  | Some w => ret (Z.testbit w (31 - i mod 32))
+  end.
+Fixpoint set_elems (add : Z -> Z -> out Z) (n : nat) (i base : Z) (words : list Z)
+  : out (list Z) :=
   match n with
-  | O => Some []
-  | S k => match set_elems k (i + 1) base words with
-           | None => None
-           | Some rest => if bit_set words i
-                          then match chk (i + base) with
-                               | Some x => Some (x :: rest)
-                               | None => None
-                               end
-                          else Some rest
-           end
+  | O => ret []
+  | S k =>
+      _ <- tick 1 ;;
+      b <- bit_set words i ;;
+      x <- (if b then (e <- add i base ;; ret [e]) else ret []) ;;
+      rest <- set_elems add k (i + 1) base words ;;
+      ret (x ++ rest)
   end.
 
-Fixpoint fold_irrelevant (p : proxy) (l : list Z) (cost : Z) : option (proxy * Z) :=
+(* missing_seqnums: for s in range_inclusive(max(first, ack_base), last) *)
+Fixpoint missing_loop (n : nat) (s : Z) (ch : list Z) : out (list Z) :=
+  match n with
+  | O => ret []
+  | S k =>
+      _ <- tick 1 ;;
+      nxt <- iadd s 1 ;;
+      rest <- missing_loop k nxt ch ;;
+      if mem s ch then ret rest else (_ <- alloc WORD ;; ret (s :: rest))
+  end.
+Definition missing_seqnums (p : proxy) (first last : Z) : out (list Z) :=
+  if last <? first then (_ <- iadd last 1 ;; ret [])      (* first > last + 1 is evaluated *)
+  else
+    _ <- alloc 256 ;;                                      (* Vec::with_capacity(32) *)
+    let b := Z.max first (ack_base p) in
+    let k := zlen (filter (fun x => (b <=? x) && (x <=? last)) (changes p)) in
+    _ <- (if b <=? last then (_ <- tick k ;; alloc (WORD * k)) else ret tt) ;;
+    missing_loop (Z.to_nat (last - b + 1)) b (changes p).
+
+(* ---------------------------------------------------------------------------------------- *)
+(* RtpsReaderProxy (the local Writer's view of a remote reader) *)
+Record rproxy := { rp_acked : Z; rp_unsent : list Z; rp_frags : list (Z * list bool) }.
+Definition rproxy0 : rproxy := {| rp_acked := 0; rp_unsent := []; rp_frags := [] |}.
+(* after the driver has written samples 1..3: every sample is "unsent" for the matched reader *)
+Definition rproxy_init : rproxy := {| rp_acked := 0; rp_unsent := [1; 2; 3]; rp_frags := [] |}.
+
+(* ---------------------------------------------------------------------------------------- *)
+(* the participant: one reliable Reader (matched writer proxies by source, fragment assemblers
+   by source, what was handed to the topic cache) and one reliable Writer (history = sequence
+   number |-> number of fragments, last sequence number, reader proxies by source) *)
+Record state := {
+  s_px : list (Z * proxy);
+  s_fa : F.rstate;
+  s_deliv : list (Z * Z);
+  s_rps : list (Z * rproxy);
+  s_hist : list (Z * Z);
+  s_last : Z;
+  s_now : Z }.
+
+Definition set_px (s : state) (px : list (Z * proxy)) : state :=
+  {| s_px := px; s_fa := s_fa s; s_deliv := s_deliv s; s_rps := s_rps s; s_hist := s_hist s;
+     s_last := s_last s; s_now := s_now s |}.
+Definition set_fa (s : state) (fa : F.rstate) : state :=
+  {| s_px := s_px s; s_fa := fa; s_deliv := s_deliv s; s_rps := s_rps s; s_hist := s_hist s;
+     s_last := s_last s; s_now := s_now s |}.
+Definition set_deliv (s : state) (d : list (Z * Z)) : state :=
+  {| s_px := s_px s; s_fa := s_fa s; s_deliv := d; s_rps := s_rps s; s_hist := s_hist s;
+     s_last := s_last s; s_now := s_now s |}.
+Definition set_rps (s : state) (r : list (Z * rproxy)) : state :=
+  {| s_px := s_px s; s_fa := s_fa s; s_deliv := s_deliv s; s_rps := r; s_hist := s_hist s;
+     s_last := s_last s; s_now := s_now s |}.
+Definition tock (s : state) : state :=
+  {| s_px := s_px s; s_fa := s_fa s; s_deliv := s_deliv s; s_rps := s_rps s; s_hist := s_hist s;
+     s_last := s_last s; s_now := s_now s + 1 |}.
+
+(* the ACKNACKs the reader emits: (writer, base, set) *)
+Definition reply := (Z * Z * list Z)%type.
+
+Definition is_partial (s : state) (w sn : Z) : bool :=
+  match F.alookup w (s_fa s) with
+  | Some fa => match F.alookup sn (F.fa_bufs fa) with Some _ => true | None => false end
+  | None => false
+  end.
+
+Fixpoint take_while {A} (f : A -> bool) (l : list A) : list A :=
   match l with
-  | [] => Some (p, cost)
-  | x :: l' => match set_irrelevant p x (cost + 1) with
-               | Some (p', c) => fold_irrelevant p' l' c
-               | None => None
-               end
+  | [] => []
+  | x :: l' => if f x then x :: take_while f l' else []
   end.
 
-(* missing_seqnums cost: the length of the enumerated interval *)
-Definition missing_cost (p : proxy) (first last : Z) : Z :=
-  if last <? first then 0 else Z.max 0 (last - Z.max first (ack_base p) + 1).
+(* NumberSet::from_base_and_set(base, set) for an ascending [set] *)
+Definition from_base_and_set (base : Z) (set : list Z) : Z * list Z :=
+  match set with
+  | [] => (base, [])
+  | start :: _ =>
+      let base := if start <? base then start else base in
+      if base <? 1 then (1, [])
+      else
+        let e := last set start in
+        let e := if 256 <=? e - base then base + 255 else e in
+        (base, filter (fun x => (base <=? x) && (x <=? e)) set)
+  end.
 
-Inductive result := Panic | Done (p : proxy) (cost : Z) (acknack_base : option Z).
+(* NACKFRAG generation for one partially received sample: missing_frags_for scans the
+   received-bitmap; the missing fragment numbers are collected into a BTreeSet *)
+Definition nackfrag_cost (v : version) (s : state) (w sn : Z) : out unit :=
+  match F.alookup w (s_fa s) with
+  | Some fa =>
+      match F.alookup sn (F.fa_bufs fa) with
+      | Some ab =>
+          let miss := zlen (filter negb (F.ab_bitmap ab)) in
+          _ <- tick (F.ab_count ab) ;;
+          _ <- alloc (WORD * (if v_nackfrag_window v then Z.min miss 256 else miss)) ;;
+          alloc MSG
+      | None => ret tt
+      end
+  | None => ret tt
+  end.
+Fixpoint nackfrags (v : version) (s : state) (w : Z) (sns : list Z) : out unit :=
+  match sns with
+  | [] => ret tt
+  | sn :: l => _ <- nackfrag_cost v s w sn ;; nackfrags v s w l
+  end.
 
-Definition accepted (s : sub) : bool :=
+(* Reader::handle_heartbeat_msg (reliable, stateful reader) *)
+Definition handle_heartbeat (v : version) (s : state) (w first last count : Z) (final : bool)
+  : out (state * list reply) :=
+  match F.alookup w (s_px s) with
+  | None => ret (s, [])                                   (* no writer proxy *)
+  | Some p =>
+      if count <=? hb_count p then ret (s, []) else
+      let p0 := {| ack_base := ack_base p; changes := changes p; hb_count := count |} in
+      p1 <- irrelevant_range v p0 0 first ;;
+      last' <- (if v_hb_window v
+                then (lim <- iadd (ack_base p1) 255 ;; ret (Z.min last lim))
+                else ret last) ;;
+      missing <- missing_seqnums p1 first last' ;;
+      let s1 := set_px s (F.ainsert w p1 (s_px s)) in
+      if negb (match missing with [] => true | _ => false end) || negb final then
+        match missing with
+        | fm :: _ =>
+            lim2 <- iadd fm 256 ;;
+            let cand := take_while (fun x => x <? lim2) missing in
+            _ <- tick (zlen cand) ;;
+            let part := filter (is_partial s w) cand in
+            let set := filter (fun x => negb (is_partial s w x)) cand in
+            _ <- alloc (ENTRY * zlen set + WORD * zlen part) ;;
+            _ <- nackfrags v s w part ;;
+            _ <- alloc MSG ;;
+            let r := from_base_and_set fm set in
+            ret (s1, [(w, fst r, snd r)])
+        | [] =>
+            _ <- alloc MSG ;;
+            ret (s1, [(w, ack_base p1, [])])
+        end
+      else ret (s1, [])
+  end.
+
+(* Reader::handle_gap_msg *)
+Fixpoint fold_irrelevant (p : proxy) (l : list Z) : out proxy :=
+  match l with
+  | [] => ret p
+  | x :: l' => p' <- set_irrelevant p x ;; fold_irrelevant p' l'
+  end.
+Definition handle_gap (v : version) (s : state) (w start base numbits : Z) (words : list Z)
+  : out state :=
+  match F.alookup w (s_px s) with
+  | None => ret s
+  | Some p =>
+      if start <=? 0 then ret s else
+      if base <=? 0 then ret s else
+      p1 <- irrelevant_range v p start base ;;
+      elems <- set_elems iadd (Z.to_nat numbits) 0 base words ;;
+      p2 <- fold_irrelevant p1 elems ;;
+      ret (set_px s (F.ainsert w p2 (s_px s)))
+  end.
+
+(* Reader::process_received_data (for DATA and for a completed DATAFRAG) *)
+Definition process_received (s : state) (w sn size : Z) : out state :=
+  match F.alookup w (s_px s) with
+  | None => ret s                      (* no proxy, user-defined writer: ignored *)
+  | Some p =>
+      if should_ignore p sn then ret s else
+      p1 <- received_add p sn ;;
+      _ <- alloc (size + 256) ;;       (* the cache change *)
+      ret (set_deliv (set_px s (F.ainsert w p1 (s_px s))) ((w, sn) :: s_deliv s))
+  end.
+
+(* Reader::handle_data_msg: a payload shorter than the 4-byte representation header is dropped *)
+Definition handle_data (s : state) (w sn plen : Z) : out state :=
+  if plen <? 4 then ret s else process_received s w sn plen.
+
+(* MessageReceiver::decode_and_handle_datafrag + Reader::handle_datafrag_msg *)
+Definition mk_df (sn start in_sub fsize total plen : Z) : F.datafrag :=
+  {| F.df_sn := sn; F.df_start := start; F.df_count := in_sub; F.df_data_size := total;
+     F.df_frag_size := fsize; F.df_payload := repeat 0 (Z.to_nat plen) |}.
+Definition handle_datafrag (v : version) (s : state) (w sn start in_sub fsize total plen : Z)
+  : out state :=
+  if in_sub * fsize <? plen then ret s else
+  let df := mk_df sn start in_sub fsize total plen in
+  let fa := match F.alookup w (s_fa s) with
+            | Some fa => fa
+            | None => {| F.fa_fs := fsize; F.fa_bufs := [] |}
+            end in
+  let fresh := match F.alookup sn (F.fa_bufs fa) with Some _ => false | None => true end in
+  let accepted := if v_frag_validate v then F.validate_datafrag fa df else true in
+  _ <- (if fresh && accepted
+        then alloc (total + F.total_frags total fsize / 8 + ENTRY)   (* AssemblyBuffer::new *)
+        else ret tt) ;;
+  _ <- (if accepted then tick in_sub else ret tt) ;;               (* bitmap.set loop *)
+  r <- lift ((if v_frag_validate v then F.new_datafrag else F.new_datafrag_old) fa df (s_now s)) ;;
+  let s1 := tock (set_fa s (F.ainsert w (fst r) (s_fa s))) in
+  match snd r with
+  | Some b => process_received s1 w sn (F.len b)
+  | None => ret s1
+  end.
+
+(* Writer::handle_ack_nack, AckNack branch + RtpsReaderProxy::handle_ack_nack *)
+Definition handle_acknack (s : state) (w base numbits : Z) (words : list Z) : out state :=
+  elems <- set_elems iadd (Z.to_nat numbits) 0 base words ;;
+  match F.alookup w (s_rps s) with
+  | None => ret s
+  | Some rp =>
+      let acked := Z.max base 1 in
+      let un0 := filter (fun x => acked <=? x) (rp_unsent rp) in
+      _ <- alloc (ENTRY * zlen elems) ;;
+      let un1 := fold_left (fun l x => insert x l) elems un0 in
+      let un2 := if existsb (fun x => s_last s <? x) un1
+                 then filter (fun x => x <=? s_last s) un1 else un1 in
+      _ <- alloc ENTRY ;;                                   (* the repair timer entry *)
+      ret (set_rps s (F.ainsert w {| rp_acked := acked; rp_unsent := un2; rp_frags := rp_frags rp |}
+                                (s_rps s)))
+  end.
+
+(* Writer::handle_ack_nack, NackFrag branch + RtpsReaderProxy::mark_frags_requested *)
+Definition mark_frag (fc : Z) (bv : out (list bool)) (f : Z) : out (list bool) :=
+  b <- bv ;;
+  if (1 <=? f) && (f <=? fc)
+  then (if f - 1 <? zlen b then ret (F.upd b (Z.to_nat (f - 1)) true) else OPanic)
+  else ret b.
+Definition handle_nackfrag (s : state) (w sn base numbits : Z) (words : list Z) : out state :=
+  match F.alookup sn (s_hist s) with
+  | None => ret s                                           (* sample not in the history *)
+  | Some fc =>
+      match F.alookup w (s_rps s) with
+      | None => ret s
+      | Some rp =>
+          bv0 <- match F.alookup sn (rp_frags rp) with
+                 | Some bv => ret bv
+                 | None => (_ <- alloc (fc / 8 + ENTRY) ;; ret (repeat false (Z.to_nat fc)))
+                 end ;;
+          let bv1 := if zlen bv0 <? fc then bv0 ++ repeat false (Z.to_nat (fc - zlen bv0)) else bv0 in
+          elems <- set_elems u32add (Z.to_nat numbits) 0 base words ;;
+          bv2 <- fold_left (mark_frag fc) elems (ret bv1) ;;
+          _ <- alloc ENTRY ;;
+          ret (set_rps s (F.ainsert w {| rp_acked := rp_acked rp; rp_unsent := rp_unsent rp;
+                                         rp_frags := F.ainsert sn bv2 (rp_frags rp) |} (s_rps s)))
+      end
+  end.
+
+(* ---------------------------------------------------------------------------------------- *)
+(* parse-level rejection: the whole datagram is dropped *)
+Definition numset_ok (numbits : Z) (words : list Z) : bool :=
+  (0 <=? numbits) && (numbits <=? 256) && (zlen words =? (numbits + 31) / 32).
+Definition sub_parses (s : subm) : bool :=
+  match s with
+  | Gap _ _ nb w | AckNack _ nb w _ | NackFrag _ _ nb w _ => numset_ok nb w
+  | DataFrag sn start _ fsize total _ =>
+      (1 <=? sn) && (1 <=? fsize) && (fsize <=? total)
+      && (1 <=? start) && (start <=? F.total_frags total fsize)
+  | Raw _ _ _ _ parsed | Blob _ parsed => parsed
+  | _ => true
+  end.
+
+(* numbers_in_accepted_range *)
+Definition accepted (s : subm) : bool :=
   match s with
   | Heartbeat f l _ _ => (f <=? max_accepted) && (l <=? max_accepted)
   | Gap st b _ _ => (st <=? max_accepted) && (b <=? max_accepted)
   | Data sn _ => sn <=? max_accepted
+  | DataFrag sn st _ _ _ _ => (sn <=? max_accepted) && (st <=? fmax_accepted)
+  | HeartbeatFrag sn lf _ => (sn <=? max_accepted) && (lf <=? fmax_accepted)
+  | AckNack b _ _ _ => b <=? max_accepted
+  | NackFrag sn b _ _ _ => (sn <=? max_accepted) && (b <=? fmax_accepted)
   | _ => true
   end.
 
-Definition handle (p : proxy) (s : sub) : result :=
-  if negb (accepted s) then Done p 0 None else
-  match s with
-  | Heartbeat first last count final =>
-      if count <=? hb_count p then Done p 0 None else
-      let p0 := {| ack_base := ack_base p; changes := changes p; hb_count := count |} in
-      match irrelevant_range p0 0 first 0 with
-      | None => Panic
-      | Some (p1, c1) =>
-          match chk (ack_base p1 + 255) with
-          | None => Panic
-          | Some lim =>
-              let last' := Z.min last lim in
-              (* missing_seqnums: first > last' computes last' + 1 *)
-              match (if last' <? first then chk (last' + 1) else Some 0) with
-              | None => Panic
-              | Some _ =>
-                  let c2 := c1 + missing_cost p1 first last' in
-                  let missing := negb (last' <? first) && (ack_base p1 <=? last') in
-                  (* first_missing + 256 in the take_while *)
-                  match (if missing then chk (ack_base p1 + 256) else Some 0) with
-                  | None => Panic
-                  | Some _ =>
-                      if missing || negb final
-                      then Done p1 c2 (Some (ack_base p1))
-                      else Done p1 c2 None
-                  end
-              end
-          end
+(* MessageReceiver state that submessages of one datagram can change *)
+Record rcv := { rc_src : Z; rc_dst_ok : bool }.
+
+Definition SUBM : Z := 256.   (* the parsed Submessage value *)
+
+Definition handle_sub (v : version) (s : state) (rc : rcv) (m : subm)
+  : out (state * rcv * list reply) :=
+  _ <- tick 1 ;; _ <- alloc (SUBM + 8 * sub_bytes m) ;;
+  match m with
+  | InfoDst who => ret (s, {| rc_src := rc_src rc; rc_dst_ok := (who =? 0) || (who =? OWN) |}, [])
+  | InfoSrc who => ret (s, {| rc_src := who; rc_dst_ok := rc_dst_ok rc |}, [])
+  | InfoTs _ _ | Raw _ _ _ _ _ | Blob _ _ => ret (s, rc, [])
+  | _ =>
+      if negb (rc_dst_ok rc) then ret (s, rc, []) else
+      if v_range_guard v && negb (accepted m) then ret (s, rc, []) else
+      let w := rc_src rc in
+      match m with
+      | Heartbeat f l c fin => r <- handle_heartbeat v s w f l c fin ;; ret (fst r, rc, snd r)
+      | Gap st b nb ws => s' <- handle_gap v s w st b nb ws ;; ret (s', rc, [])
+      | Data sn pl => s' <- handle_data s w sn pl ;; ret (s', rc, [])
+      | DataFrag sn st n fs tot pl => s' <- handle_datafrag v s w sn st n fs tot pl ;; ret (s', rc, [])
+      | AckNack b nb ws _ => s' <- handle_acknack s w b nb ws ;; ret (s', rc, [])
+      | NackFrag sn b nb ws _ => s' <- handle_nackfrag s w sn b nb ws ;; ret (s', rc, [])
+      | _ => ret (s, rc, [])                                (* HEARTBEAT_FRAG: logged only *)
       end
-  | Gap start base numbits words =>
-      if start <=? 0 then Done p 0 None else
-      if base <=? 0 then Done p 0 None else
-      match irrelevant_range p start base 0 with
-      | None => Panic
-      | Some (p1, c1) =>
-          match set_elems (Z.to_nat numbits) 0 base words with
-          | None => Panic
-          | Some elems =>
-              match fold_irrelevant p1 elems c1 with
-              | None => Panic
-              | Some (p2, c2) => Done p2 c2 None
-              end
-          end
-      end
-  | Data sn _ =>
-      if (sn <? ack_base p) || mem sn (changes p) then Done p 0 None else
-      match received_add p sn 0 with
-      | None => Panic
-      | Some (p1, c) => Done p1 c None
-      end
-  | _ => Done p 0 None
   end.
 
-(* a datagram whose number set claims more than 256 bits is rejected by the parser as a whole *)
-Definition parses (s : sub) : bool :=
-  match s with
-  | Gap _ _ nb _ | AckNack _ nb _ _ | NackFrag _ _ nb _ _ => (0 <=? nb) && (nb <=? 256)
-  | _ => true
+Fixpoint handle_subs (v : version) (s : state) (rc : rcv) (l : list subm)
+  : out (state * list reply) :=
+  match l with
+  | [] => ret (s, [])
+  | m :: l' =>
+      r <- handle_sub v s rc m ;;
+      r' <- handle_subs v (fst (fst r)) (snd (fst r)) l' ;;
+      ret (fst r', snd r ++ snd r')
   end.
 
-(* ---------- a whole case: datagrams from writer W1 ---------- *)
-Record case := { c_datagrams : list (list sub); c_bytes : Z }.
+(* MessageReceiver::handle_received_packet + draining the ACKNACK channel into the Writer *)
+Definition handle (v : version) (s : state) (d : dgram) : out (state * list reply) :=
+  _ <- alloc (8 * dg_bytes d) ;;
+  if forallb sub_parses (d_subs d)
+  then handle_subs v s {| rc_src := d_src d; rc_dst_ok := true |} (d_subs d)
+  else ret (s, []).
 
-Inductive outcome := OOk | OPanic | OHang.
+(* ---------------------------------------------------------------------------------------- *)
+(* retained state, in bytes *)
+Definition ab_size (ab : F.abuf) : Z := F.len (F.ab_bytes ab) + F.len (F.ab_bitmap ab) + ENTRY.
+Definition fa_size (fa : F.assembler) : Z :=
+  ENTRY + fold_right (fun kv a => ab_size (snd kv) + a) 0 (F.fa_bufs fa).
+Definition size (s : state) : Z :=
+  fold_right (fun kv a => ENTRY * zlen (changes (snd kv)) + a) 0 (s_px s)
+  + fold_right (fun kv a => fa_size (snd kv) + a) 0 (s_fa s)
+  + 320 * zlen (s_deliv s)
+  + fold_right (fun kv a => ENTRY * zlen (rp_unsent (snd kv))
+                            + fold_right (fun sb b => zlen (snd sb) + ENTRY + b) 0 (rp_frags (snd kv))
+                            + a) 0 (s_rps s).
+
+(* ---------------------------------------------------------------------------------------- *)
+(* Correspondence interface.  The driver's participant: reader matched with writers 1 and 2,
+   writer with the history 1, 2 (one fragment) and 3 (three fragments), matched with the reader
+   of participant 1.  Hostile traffic comes from sources other than 2; afterwards the
+   well-behaved writer 2 sends DATA 1 and a HEARTBEAT 1..1. *)
+Definition init : state :=
+  {| s_px := [(1, proxy0); (2, proxy0)]; s_fa := []; s_deliv := [];
+     s_rps := [(1, rproxy_init)]; s_hist := [(1, 1); (2, 1); (3, 3)]; s_last := 3; s_now := 0 |}.
+
+(* run-length encoded list of datagrams: (n, d) = the datagram d, n times in a row *)
+Record case := { c_rl : list (Z * dgram) }.
+Definition c_dgs (c : case) : list dgram :=
+  flat_map (fun p => repeat (snd p) (Z.to_nat (fst p))) (c_rl c).
+
+Inductive outcome := OOk | OCrash | OHang.
+
+(* bitmaps are printed run-length encoded: maximal runs (length, value) *)
+Definition rlbits := list (Z * bool).
+Fixpoint rle (l : list bool) : rlbits :=
+  match l with
+  | [] => []
+  | b :: l' =>
+      match rle l' with
+      | (n, b') :: r => if Bool.eqb b b' then (n + 1, b) :: r else (1, b) :: (n, b') :: r
+      | [] => [(1, b)]
+      end
+  end.
+
+Record digest := {
+  g_base : Z; g_changes : list Z; g_hb : Z;               (* proxy of writer 1 *)
+  g_bufs : list (Z * list (Z * (Z * rlbits)));             (* per source: (sn, size, bitmap) *)
+  g_deliv : list (Z * Z);                                  (* handed to the cache, in order *)
+  g_acked : Z; g_unsent : list Z; g_frags : list (Z * rlbits) }.
 
 Record obs := {
-  o_outcomes : list outcome;      (* per datagram handled *)
-  o_max_alloc : Z;                (* bytes allocated while handling one datagram (max) *)
+  o_outcomes : list outcome;       (* per datagram handled *)
+  o_bytes : list Z;                (* size of each datagram *)
+  o_replies : list (Z * Z * list Z);
+  o_digest : option digest;        (* None after a crash *)
+  o_w2_delivered : bool;           (* the well-behaved writer's sample is delivered ... *)
+  o_w2_base : option Z;            (* ... and acknowledged with base 2 *)
+  o_max_alloc : Z;                 (* bytes allocated while handling one datagram (max) *)
+  o_retained : Z;                  (* growth of the live heap over the whole case *)
   o_max_ms : Z;
-  o_w1_base : option Z;           (* ACKNACK base answering a probe HEARTBEAT(1,3) of W1 *)
-  o_w2_delivered : bool;          (* a well-behaved writer's sample is still delivered ... *)
-  o_w2_base : option Z }.         (* ... and acknowledged with base 2 *)
+  o_cost : Z }.                    (* model only: max loop iterations for one datagram *)
 
-Fixpoint handle_all (p : proxy) (l : list sub) (cost : Z) : option (proxy * Z) :=
+Fixpoint zinsert (x : Z) (l : list Z) : list Z :=
   match l with
-  | [] => Some (p, cost)
-  | s :: l' => match handle p s with
-               | Panic => None
-               | Done p' c _ => handle_all p' l' (cost + c)
-               end
+  | [] => [x]
+  | y :: l' => if x <=? y then x :: l else y :: zinsert x l'
   end.
+Definition zsort (l : list Z) : list Z := fold_right zinsert [] l.
+Fixpoint kinsert {A} (x : Z * A) (l : list (Z * A)) : list (Z * A) :=
+  match l with
+  | [] => [x]
+  | y :: l' => if fst x <=? fst y then x :: l else y :: kinsert x l'
+  end.
+Definition ksort {A} (l : list (Z * A)) : list (Z * A) := fold_right kinsert [] l.
 
-Fixpoint run_dgs (p : proxy) (dgs : list (list sub)) (acc : list outcome) (cost : Z)
-  : list outcome * option proxy * Z :=
+Definition digest_of (s : state) : digest :=
+  let p := match F.alookup 1 (s_px s) with Some p => p | None => proxy0 end in
+  let rp := match F.alookup 1 (s_rps s) with Some r => r | None => rproxy0 end in
+  {| g_base := ack_base p; g_changes := zsort (changes p); g_hb := hb_count p;
+     g_bufs := ksort (map (fun kv => (fst kv,
+                  ksort (map (fun sb => (fst sb, (F.len (F.ab_bytes (snd sb)), rle (F.ab_bitmap (snd sb)))))
+                             (F.fa_bufs (snd kv))))) (s_fa s));
+     g_deliv := rev (s_deliv s);
+     g_acked := rp_acked rp; g_unsent := zsort (rp_unsent rp); g_frags := ksort (map (fun kv => (fst kv, rle (snd kv))) (rp_frags rp)) |}.
+
+Record racc := { a_outs : list outcome; a_replies : list reply; a_cost : Z; a_alloc : Z }.
+
+Fixpoint run_dgs (v : version) (s : state) (dgs : list dgram) (acc : racc) : racc * option state :=
   match dgs with
-  | [] => (rev acc, Some p, cost)
+  | [] => (acc, Some s)
   | d :: rest =>
-      if forallb parses d then
-        match handle_all p d 0 with
-        | None => (rev (OPanic :: acc), None, cost)
-        | Some (p', c) => run_dgs p' rest (OOk :: acc) (Z.max cost c)
-        end
-      else run_dgs p rest (OOk :: acc) cost
+      match handle v s d with
+      | ORet (s', rs) c a =>
+          run_dgs v s' rest {| a_outs := OOk :: a_outs acc; a_replies := rev rs ++ a_replies acc;
+                               a_cost := Z.max (a_cost acc) c; a_alloc := Z.max (a_alloc acc) a |}
+      | _ => ({| a_outs := OCrash :: a_outs acc; a_replies := a_replies acc;
+                 a_cost := a_cost acc; a_alloc := a_alloc acc |}, None)
+      end
   end.
 
-Definition probe := Heartbeat 1 3 2147483647 false.
+Definition epilogue : dgram := {| d_src := 2; d_subs := [Data 1 12; Heartbeat 1 1 1 false] |}.
 
-Definition run (c : case) : obs :=
-  match run_dgs proxy0 (c_datagrams c) [] 0 with
-  | (outs, Some p, cost) =>
-      let b := match handle p probe with Done _ _ (Some b) => Some b | _ => None end in
-      {| o_outcomes := outs; o_max_alloc := 0; o_max_ms := 0; o_w1_base := b;
-         o_w2_delivered := true; o_w2_base := Some 2 |}
-  | (outs, None, _) =>
-      {| o_outcomes := outs; o_max_alloc := 0; o_max_ms := 0; o_w1_base := None;
-         o_w2_delivered := false; o_w2_base := None |}
+(* cases the model is not evaluated on (an assembly buffer of that size as a Coq list) *)
+Definition MODEL_CAP : Z := 4195264.
+Definition sub_too_big (m : subm) : bool :=
+  match m with DataFrag _ _ _ _ total _ => MODEL_CAP <? total | _ => false end.
+Definition too_big (c : case) : bool :=
+  existsb (fun d => existsb sub_too_big (d_subs d)) (c_dgs c).
+
+Definition run_v (v : version) (c : case) : obs :=
+  let bytes := map dg_bytes (c_dgs c) in
+  match run_dgs v init (c_dgs c) {| a_outs := []; a_replies := []; a_cost := 0; a_alloc := 0 |} with
+  | (acc, Some s) =>
+      match handle v s epilogue with
+      | ORet (s', rs) _ _ =>
+          {| o_outcomes := rev (a_outs acc); o_bytes := bytes; o_replies := rev (a_replies acc);
+             o_digest := Some (digest_of s);
+             o_w2_delivered := existsb (fun x => (fst x =? 2) && (snd x =? 1)) (s_deliv s');
+             o_w2_base := match rs with [(2, b, _)] => Some b | _ => None end;
+             o_max_alloc := a_alloc acc; o_retained := size s - size init; o_max_ms := 0;
+             o_cost := a_cost acc |}
+      | _ =>
+          {| o_outcomes := rev (OCrash :: a_outs acc); o_bytes := bytes;
+             o_replies := rev (a_replies acc); o_digest := None; o_w2_delivered := false;
+             o_w2_base := None; o_max_alloc := a_alloc acc; o_retained := 0; o_max_ms := 0;
+             o_cost := a_cost acc |}
+      end
+  | (acc, None) =>
+      {| o_outcomes := rev (a_outs acc); o_bytes := bytes; o_replies := rev (a_replies acc);
+         o_digest := None; o_w2_delivered := false; o_w2_base := None;
+         o_max_alloc := a_alloc acc; o_retained := 0; o_max_ms := 0; o_cost := a_cost acc |}
   end.
 
-(* the model's prediction of W1's state is exact only when every submessage is one it models *)
-Definition modelled (s : sub) : bool :=
-  match s with Heartbeat _ _ _ _ | Gap _ _ _ _ | Data _ _ => true | _ => false end.
-Definition exact (c : case) : bool := forallb (forallb modelled) (c_datagrams c).
+Definition obs_big (c : case) : obs :=
+  {| o_outcomes := map (fun _ => OOk) (c_dgs c); o_bytes := map dg_bytes (c_dgs c);
+     o_replies := []; o_digest := None; o_w2_delivered := true; o_w2_base := Some 2;
+     o_max_alloc := 0; o_retained := 0; o_max_ms := 0; o_cost := 0 |}.
 
+Definition run (c : case) : obs := if too_big c then obs_big c else run_v fixed c.
+
+(* ---------------------------------------------------------------------------------------- *)
+(* comparison of the model's observation [m] with the implementation's [i] *)
 Definition outcome_eqb (a b : outcome) : bool :=
-  match a, b with OOk, OOk | OPanic, OPanic | OHang, OHang => true | _, _ => false end.
-Definition optz_eqb := option_eqb Z.eqb.
+  match a, b with OOk, OOk | OCrash, OCrash | OHang, OHang => true | _, _ => false end.
+Definition zl_eqb := list_eqb Z.eqb.
+Definition bl_eqb := list_eqb (pair_eqb Z.eqb Bool.eqb).
+Definition reply_eqb (a b : Z * Z * list Z) : bool :=
+  (fst (fst a) =? fst (fst b)) && (snd (fst a) =? snd (fst b)) && zl_eqb (snd a) (snd b).
+Definition buf_eqb (a b : Z * (Z * rlbits)) : bool :=
+  (fst a =? fst b) && (fst (snd a) =? fst (snd b)) && bl_eqb (snd (snd a)) (snd (snd b)).
+Definition digest_eqb (a b : digest) : bool :=
+  (g_base a =? g_base b) && zl_eqb (g_changes a) (g_changes b) && (g_hb a =? g_hb b)
+  && list_eqb (fun x y => (fst x =? fst y) && list_eqb buf_eqb (snd x) (snd y)) (g_bufs a) (g_bufs b)
+  && list_eqb (pair_eqb Z.eqb Z.eqb) (g_deliv a) (g_deliv b)
+  && (g_acked a =? g_acked b) && zl_eqb (g_unsent a) (g_unsent b)
+  && list_eqb (fun x y => (fst x =? fst y) && bl_eqb (snd x) (snd y)) (g_frags a) (g_frags b).
 
-Definition obs_eqb (m i : obs) : bool :=
-  list_eqb outcome_eqb (o_outcomes m) (o_outcomes i)
-  && Bool.eqb (o_w2_delivered m) (o_w2_delivered i)
-  && optz_eqb (o_w2_base m) (o_w2_base i).
+(* the model predicts replies and state exactly unless the case contains bytes it does not
+   interpret that the real parser accepted, or is outside the evaluated range *)
+Definition sub_exact (m : subm) : bool :=
+  match m with Raw _ _ _ _ parsed | Blob _ parsed => negb parsed | _ => true end.
+Definition exact (c : case) : bool :=
+  negb (too_big c) && forallb (fun d => forallb sub_exact (d_subs d)) (c_dgs c).
 
-(* exact cases additionally compare W1's ACKNACK base *)
-Definition obs_eqb_for (c : case) (m i : obs) : bool :=
-  obs_eqb m i && (negb (exact c) || optz_eqb (o_w1_base m) (o_w1_base i)).
 
-(* ---------- property oracle (observables only) ----------
-   no datagram crashes or hangs the participant; memory allocated while handling a datagram stays
-   within a budget proportional to the bytes received; afterwards a well-behaved peer's sample is
-   delivered and acknowledged, and the hostile peer's own stream still gets a sane ACKNACK. *)
-Definition alloc_budget (c : case) : Z := 262144 + 256 * c_bytes c.
-Definition ms_budget : Z := 4000.
+
+(* ---------------------------------------------------------------------------------------- *)
+(* Property oracle: observables only.
+   (a) every datagram is handled without crash or hang;
+   (b) what is allocated while one datagram is handled, what stays allocated after the whole
+       case, the time and (model) the loop iterations for one datagram are within budgets that
+       are linear in the bytes received;
+   (c) afterwards the well-behaved writer's sample is delivered and acknowledged. *)
+Definition total_bytes (c : case) : Z := fold_right Z.add 0 (map dg_bytes (c_dgs c)).
+Definition alloc_budget (c : case) : Z := 262144 + 128 * total_bytes c.
+Definition retained_budget (c : case) : Z := 262144 + 128 * total_bytes c.
+Definition cost_budget (c : case) : Z := 4096 + 64 * total_bytes c.
+Definition ms_budget : Z := 3000.
 
 Definition ok (c : case) (o : obs) : bool :=
   forallb (outcome_eqb OOk) (o_outcomes o)
-  && (Z.of_nat (length (o_outcomes o)) =? Z.of_nat (length (c_datagrams c)))
+  && (length (o_outcomes o) =? length (c_dgs c))%nat
   && (o_max_alloc o <=? alloc_budget c)
+  && (o_retained o <=? retained_budget c)
+  && (o_cost o <=? cost_budget c)
   && (o_max_ms o <=? ms_budget)
   && o_w2_delivered o
-  && optz_eqb (o_w2_base o) (Some 2)
-  && match o_w1_base o with Some b => 1 <=? b | None => false end.
+  && option_eqb Z.eqb (o_w2_base o) (Some 2).
 
-(* the correspondence evaluator takes a case-independent comparer: wrap *)
+(* Known finding F7 (not repaired): AssemblyBuffer::new allocates and zeroes data_size bytes for
+   the first DATAFRAG of a sample, whatever the size of the datagram.  Syntactic class: the case
+   contains a DATAFRAG announcing a data_size out of proportion to the payload it carries. *)
+Definition sub_known (m : subm) : bool :=
+  match m with DataFrag _ _ _ _ total pl => 64 * pl + 1024 <? total | _ => false end.
+Definition known_class (c : case) : bool :=
+  existsb (fun d => existsb sub_known (d_subs d)) (c_dgs c).
+
+(* Correspondence.  Always compared: per-datagram outcomes, datagram sizes (the model's size
+   function), the well-behaved peer's service.  For exact cases also the ACKNACKs emitted and the
+   state digest; moreover the model's own allocation / retained-size / step counters must satisfy
+   the oracle's budgets (outside the known-finding class), and the bytes the implementation
+   allocated for one datagram must not exceed twice the model's count plus 64 KiB (the model's
+   allocation counter over-approximates the implementation's allocations). *)
+Definition obs_eqb_for (c : case) (m i : obs) : bool :=
+  list_eqb outcome_eqb (o_outcomes m) (o_outcomes i)
+  && zl_eqb (o_bytes m) (o_bytes i)
+  && Bool.eqb (o_w2_delivered m) (o_w2_delivered i)
+  && option_eqb Z.eqb (o_w2_base m) (o_w2_base i)
+  && (negb (exact c)
+      || (list_eqb reply_eqb (o_replies m) (o_replies i)
+          && option_eqb digest_eqb (o_digest m) (o_digest i)
+          && (known_class c || ok c m)
+          && (o_max_alloc i <=? 2 * o_max_alloc m + 65536))).
 Definition case_obs_eqb (c : case) := obs_eqb_for c.
+
+(* field values within their Rust types, number-set words as the reader builds them *)
+Definition in_u32 (x : Z) : bool := (0 <=? x) && (x <=? u32_max).
+Definition in_u16 (x : Z) : bool := (0 <=? x) && (x <=? 65535).
+Definition in_i32 (x : Z) : bool := (-2147483648 <=? x) && (x <=? 2147483647).
+Definition words_ok (nb : Z) (w : list Z) : bool :=
+  in_u32 nb && forallb in_u32 w && (zlen w =? (Z.min nb 512 + 31) / 32).
+Definition wf_sub (m : subm) : bool :=
+  match m with
+  | Heartbeat f l c _ => in_i64 f && in_i64 l && in_i32 c
+  | Gap st b nb w => in_i64 st && in_i64 b && words_ok nb w
+  | Data sn pl => in_i64 sn && (0 <=? pl) && (pl <=? 65535)
+  | DataFrag sn st n fs tot pl =>
+      in_i64 sn && in_u32 st && in_u16 n && in_u16 fs && in_u32 tot && (0 <=? pl) && (pl <=? 65535)
+  | AckNack b nb w c => in_i64 b && words_ok nb w && in_i32 c
+  | NackFrag sn b nb w c => in_i64 sn && in_u32 b && words_ok nb w && in_i32 c
+  | HeartbeatFrag sn lf c => in_i64 sn && in_u32 lf && in_i32 c
+  | InfoTs a b => in_u32 a && in_u32 b
+  | InfoDst w | InfoSrc w => (0 <=? w) && (w <=? 255)
+  | Raw id fl bl lf _ => in_u16 bl && (0 <=? id) && (id <=? 255) && (0 <=? fl) && (fl <=? 255)
+                         && match lf with Some l => in_u16 l | None => true end
+  | Blob n p => in_u16 n && (negb p || (20 <=? n))
+  end.
+Definition wf_dgram (d : dgram) : bool :=
+  (0 <=? d_src d) && (d_src d <=? 255) && forallb wf_sub (d_subs d) && (0 <=? dg_bytes d).
